@@ -9,7 +9,7 @@ ASSUMPTIONS = ["single-fault sequences: exactly one call fails, every other call
                "a failing call has no effect of its own (an open(O_TRUNC) that fails does not truncate)",
                "object states are compared semantically: inventories as JSON values, sidecars against the inventory they accompany, other files byte-wise"]
 CORRESPONDENCE = "Commit.execKill (lean/RocflModel/Commit.lean) vs `rocfl commit|upgrade` under strace fault injection"
-BUDGET = {"quick": dict(commits=16, seconds=200), "thorough": dict(commits=60, seconds=1700, all_calls=True)}
+BUDGET = {"quick": dict(commits=26, seconds=200), "thorough": dict(commits=60, seconds=1700, all_calls=True)}
 MODES = ["kill"]
 RULE = ("commits (new object / new version / spec upgrade; duplicates and orphans to clean; three layouts; both staging placements) replayed once per mutating "
         "system call with SIGKILL delivered right before that call (thorough: before every individual write as well); "
